@@ -330,6 +330,8 @@ def check(ctx):
                 for x in (poses.walk() if poses is not None else [])),
                 "KITTI: no value is scaled", key="C07.3:kitti")
 
+    from .. import vendored
+    vendored.check(ctx, "C07.1", ("quaternion_matrix",))
     _writers(ctx, prog)
     _csv(ctx, prog)
     _transform(ctx, prog)
